@@ -233,6 +233,30 @@ def make(cfg):
     return Monitor(cfg)
 
 
+def stored_type_job(job):
+    """A value of EVERY value type number is reported, stored, and asked for again (also with the gateway's version
+    becoming known only in between): the request is answered with the stored value."""
+    version, ts = job
+    viols = []
+    n = 0
+    for t in ts:
+        for late in ((False, True) if version is None else (False,)):
+            n += 1
+            cfg = {"version": version, "metric": True, "tz": "PST8", "t": T_WINTER, "reply": "2.2.0"}
+            mon = Monitor(cfg)
+            hist = [["line", [1, 255, 0, 0, 17, "2.0"]], ["line", [1, 3, 0, 0, 3, ""]], ["line", [1, 3, 1, 0, t, "hello"]]]
+            if late:
+                hist.append(["line", [0, 255, 3, 0, 2, "2.2.0"]])
+            hist.append(["line", [1, 3, 2, 0, t, ""]])
+            for i, ev in enumerate(hist):
+                v = mon.apply(ev)
+                for k, w, _x in v:
+                    viols.append((k + "|stored-type", f"value type {t}{' (version reported after the value was stored)' if late else ''}: {w}", {"cfg": cfg, "history": hist[: i + 1], "extra": None}))
+                if v:
+                    break
+    return n, viols
+
+
 def run(ctx: core.Ctx) -> core.Report:
     versions = [None, *R.VERSIONS]
     cfgs = []
@@ -270,15 +294,17 @@ def run(ctx: core.Ctx) -> core.Report:
         for pre in (base, base + [["reboot", 1]]):
             grid.append({"version": v, "metric": True, "tz": "PST8", "t": T_WINTER, "reply": "2.2.0", "sweep": True, "prefix": pre})
     gres = bfs.search_many(ctx, MOD, grid, 1)
+    tjobs = [(v, list(range(i, min(i + 8, 61)))) for v in versions for i in range(0, 61, 8)]
+    tres = core.pmap(stored_type_job, tjobs, ctx.workers, chunksize=1)
     unfreeze()
-    viols = res["violations"] + gres["violations"]
+    viols = res["violations"] + gres["violations"] + [core.Violation(k, w, rep) for r in tres for k, w, rep in r[1]]
     cov = {
         "states": res["states"] + gres["states"],
         "transitions": res["transitions"] + gres["transitions"],
         "traces_validated_against_impl": res["transitions"] + gres["transitions"],
         "exhaustive": False,
         "distinct_nontrivial_transitions": res["nontrivial_transitions"] + gres["nontrivial_transitions"],
-        "rule": "all histories to the stated depth over the alphabet; non-trivial = a step for which the reaction table expects at least one write; plus a depth-1 grid over time zones x instants x versions x metric, plus a depth-1 sweep of every type number 0-60 of presentation/set/req (known and unknown node), internal -1..40 and stream -1..8 in two base states per version",
+        "rule": "all histories to the stated depth over the alphabet; non-trivial = a step for which the reaction table expects at least one write; plus a depth-1 grid over time zones x instants x versions x metric, plus a depth-1 sweep of every type number 0-60 of presentation/set/req (known and unknown node), internal -1..40 and stream -1..8 in two base states per version, plus set + req of every value type 0-60 per version (and with the version becoming known in between)",
         "bounds": {"depth": depth, "per_cfg": res["per_cfg"], "grid_cfgs": len(grid)},
         "samples": ctx.pick(res["samples"], 3),
     }
